@@ -6,6 +6,7 @@ mod c03;
 mod c04;
 mod c05;
 mod c06;
+mod c07;
 mod c08;
 mod c09;
 mod c10;
@@ -25,7 +26,40 @@ mod val;
 
 use common::*;
 
+fn c07_families() -> Vec<(Box<dyn Family>, u64)> {
+  let w = |inner: Box<dyn Family>, name: &'static str, q: u64| -> (Box<dyn Family>, u64) { (Box::new(c07::Wrap { inner, name }), q) };
+  vec![
+    (Box::new(c07::Reenter), 150_000),
+    w(Box::new(c05::C05Thr), "c07/c05-unsubscribe-threaded", 40_000),
+    w(Box::new(c08::C08), "c07/c08-scheduler-queue", 60_000),
+    w(Box::new(c09::C09), "c07/c09-observe-subscribe-on", 40_000),
+    w(Box::new(thr_ops::C11), "c07/c11-combinators-threads", 40_000),
+    w(Box::new(c12::C12), "c07/c12-subjects-threads", 40_000),
+    w(Box::new(c13::C13Thr), "c07/c13-connectables-concurrent-subscribers", 20_000),
+    w(Box::new(timed::C15), "c07/c15-worker-threads-exit", 20_000),
+    w(Box::new(timed::C16), "c07/c16-time", 20_000),
+    w(Box::new(c18::C18), "c07/c18-to-vec", 40_000),
+    w(Box::new(thr_ops::C19Ops), "c07/c19-racing-inputs", 40_000),
+    w(Box::new(thr_ops::C19Subjects), "c07/c19-racing-subject-calls", 40_000),
+    w(Box::new(c01::C01), "c07/c01-observer-contract", 100_000),
+    w(Box::new(c03::C03), "c07/c03-combining-operators", 60_000),
+    w(Box::new(c04::C04Handlers), "c07/c04-recovery-operators", 40_000),
+    w(Box::new(c05::C05Seq), "c07/c05-unsubscribe-sequential", 100_000),
+    w(Box::new(c06::C06), "c07/c06-teardown", 100_000),
+    w(Box::new(c10::C10), "c07/c10-subject-histories", 60_000),
+    w(Box::new(c13::C13), "c07/c13-connectables", 60_000),
+    w(Box::new(c14::C14), "c07/c14-resubscribe", 40_000),
+    w(Box::new(c17::C17), "c07/c17-release", 60_000),
+  ]
+}
+
 fn all_families() -> Vec<Box<dyn Family>> {
+  let mut v = all_families_base();
+  v.extend(c07_families().into_iter().map(|x| x.0));
+  v
+}
+
+fn all_families_base() -> Vec<Box<dyn Family>> {
   vec![Box::new(c08::C08), Box::new(c18::C18), Box::new(c09::C09), Box::new(c12::C12), Box::new(thr_ops::C19Ops), Box::new(thr_ops::C19Subjects), Box::new(thr_ops::C11), Box::new(timed::C16), Box::new(timed::C15), Box::new(c01::C01), Box::new(c05::C05Seq), Box::new(c05::C05Thr), Box::new(c06::C06), Box::new(c17::C17), Box::new(c14::C14), Box::new(c10::C10), Box::new(c13::C13), Box::new(c13::C13Thr), Box::new(c03::C03), Box::new(c03::C03Rsg), Box::new(c04::C04Travel), Box::new(c04::C04Handlers)]
 }
 
@@ -105,6 +139,19 @@ fn spec_for(prop: &str) -> Option<CheckSpec> {
       families: vec![FamilySpec { fam: Box::new(c06::C06), quick_runs: 400_000, thorough_runs: 6_000_000 }],
       quick_cap_s: 60,
       thorough_cap_s: 900,
+    }),
+    "C07" => Some(CheckSpec {
+      property: "C07",
+      level: "exploration",
+      rule: format!("{}; for single-task families: {}", threaded_rule, seq_rule),
+      assumptions: vec![
+        "the runtime is the oracle: a state with no runnable task and a blocked harness task is a deadlock, a request for a lock the task already holds incompatibly is a self-deadlock, an exhausted step budget under the bounded-bypass fairness rule is a livelock".into(),
+        "both RwLock policies are sampled (writer-preferring = std on Linux: a recursive read behind a queued writer blocks)".into(),
+        "premise of the property: user callbacks return and sources are finite or cancellable - pipelines with an unbounded retry or an unbounded producer are not judged for livelock here (C06 judges producers after the subscription ended)".into(),
+      ],
+      families: c07_families().into_iter().map(|(fam, q)| FamilySpec { fam, quick_runs: q, thorough_runs: q * 15 }).collect(),
+      quick_cap_s: 150,
+      thorough_cap_s: 1800,
     }),
     "C08" => Some(CheckSpec {
       property: "C08",
